@@ -86,7 +86,7 @@ type tres struct {
 	LaterClass  string   `json:"later_class"`  // class of a later call's error
 	LaterCode   uint32   `json:"later_code"`
 	HostCalls   int      `json:"host_calls,omitempty"`
-	HostAfter   int64    `json:"host_after,omitempty"` // nested guest calls made by host functions after the close
+	HostAfter   int64    `json:"host_after,omitempty"` // host functions ENTERED by the guest after the close was observed (unwinding returns do not count)
 	HostBad     []string `json:"host_bad,omitempty"`   // nested guest calls that did not fail after close
 	NestedErrs  []string `json:"nested_errs,omitempty"`
 	Skipped     string   `json:"skipped,omitempty"`
@@ -227,6 +227,24 @@ func (st *tstate) tick(_ context.Context, caller api.Module) {
 	}
 }
 
+// hostEntry is called on entry of every host function other than tick. A guest that keeps
+// entering host functions after the close was observed has not stopped, even when no tick
+// happens any more (nested calls failing at entry). Returns of nested calls while a deep
+// guest->host->guest recursion unwinds are NOT entries and are not counted.
+func (st *tstate) hostEntry(m api.Module) {
+	r := st.res
+	if r.Capped {
+		panic(errCap)
+	}
+	if r.ClosedSeen || m.IsClosed() {
+		r.HostAfter++
+		if r.HostAfter > st.cap+3 {
+			r.Capped = true
+			panic(errCap)
+		}
+	}
+}
+
 // nestedOutcome checks a guest call made by a host function.
 func (st *tstate) nestedOutcome(m api.Module, err error) {
 	r := st.res
@@ -237,15 +255,6 @@ func (st *tstate) nestedOutcome(m api.Module, err error) {
 	}
 	if r.Capped {
 		panic(errCap)
-	}
-	if r.ClosedSeen || m.IsClosed() {
-		// host functions entered again and again after the close although no tick happens any more
-		// (nested calls failing at entry): the guest side of the cycle does not stop
-		r.HostAfter++
-		if r.HostAfter > st.cap+3 {
-			r.Capped = true
-			panic(errCap)
-		}
 	}
 	if r.ClosedSeen {
 		// a tick had observed the module closed before this nested call returned: it must have failed
@@ -265,6 +274,7 @@ func (st *tstate) nestedOutcome(m api.Module, err error) {
 
 func (st *tstate) hostloop(ctx context.Context, caller api.Module) {
 	m := st.module(caller)
+	st.hostEntry(m)
 	step := m.ExportedFunction("step")
 	failed := 0
 	for i := 0; i < 5_000_000; i++ {
@@ -284,6 +294,7 @@ func (st *tstate) hostloop(ctx context.Context, caller api.Module) {
 
 func (st *tstate) hostcb(ctx context.Context, caller api.Module) {
 	m := st.module(caller)
+	st.hostEntry(m)
 	_, err := m.ExportedFunction("inner").Call(ctx)
 	st.nestedOutcome(m, err)
 	if err != nil && st.tc.HostPanics {
@@ -293,6 +304,7 @@ func (st *tstate) hostcb(ctx context.Context, caller api.Module) {
 
 func (st *tstate) bounce(ctx context.Context, caller api.Module) {
 	m := st.module(caller)
+	st.hostEntry(m)
 	_, err := m.ExportedFunction("step").Call(ctx)
 	st.nestedOutcome(m, err)
 	if err != nil && st.tc.HostPanics {
@@ -302,6 +314,7 @@ func (st *tstate) bounce(ctx context.Context, caller api.Module) {
 
 func (st *tstate) hop(ctx context.Context, caller api.Module) {
 	m := st.module(caller)
+	st.hostEntry(m)
 	_, err := m.ExportedFunction("run").Call(ctx)
 	st.nestedOutcome(m, err)
 	if err != nil && st.tc.HostPanics {
